@@ -81,6 +81,13 @@ def build(ctx, tier):
         w = runprops.world_for("fault", ctx["seed"], i)
         w.threads = 1 if i % 3 else rng.choice([2, 3])
         base.append((runprops.Scenario("fault", ctx["seed"], i, {"ref": True}), w))
+    # second stream: torrents with empty files none of which exists on disk (their segments have no
+    # source at all), failures placed on the writer's operations only
+    for i in range(8 if tier == "quick" else 40):
+        w = runprops.world_for("faultempty", ctx["seed"], i, empties=True)
+        w.remove_files(lambda rel, data: len(data) == 0)
+        w.threads = 1 if i % 2 else rng.choice([2, 3])
+        base.append((runprops.Scenario("faultempty", ctx["seed"], i, {"ref": True}), w))
     refs = runprops.run_scenarios(ctx, base)
     scen = []
     for r in refs:
@@ -88,14 +95,16 @@ def build(ctx, tier):
         if nops == 0:
             continue
         ks = list(range(nops))
+        if r["sc"].tag == "faultempty":
+            ks = [int(rec["op"]) for rec in r["rr"].records if "op" in rec and rec.get("piece", "-") != "-" and rec.get("kind") in ("mkdir_all", "set_len", "seek", "write", "open")]
         rng.shuffle(ks)
         chosen = sorted(ks[:per])
         for k in chosen:
-            scen.append((runprops.Scenario("fault", ctx["seed"], r["sc"].index, {"fail": [k], "threads": r["w"].threads}), r["w"]))
+            scen.append((runprops.Scenario(r["sc"].tag, ctx["seed"], r["sc"].index, {"fail": [k], "threads": r["w"].threads}), r["w"]))
         if tier == "thorough" or len(chosen) > 4:
             for _ in range(4 if tier == "quick" else 20):
                 a, b = sorted(rng.sample(range(nops), 2)) if nops >= 2 else (0, 0)
-                scen.append((runprops.Scenario("fault", ctx["seed"], r["sc"].index, {"fail": [a, b], "threads": r["w"].threads}), r["w"]))
+                scen.append((runprops.Scenario(r["sc"].tag, ctx["seed"], r["sc"].index, {"fail": [a, b], "threads": r["w"].threads}), r["w"]))
     return refs, scen
 
 
@@ -119,7 +128,7 @@ def correspondence(ctx):
     res = runprops.result("C13", ctx, runs, findings, broken, {"failed operation kinds": dict(kinds), "reference runs": len(refs)},
                           "generated worlds; reference run, then the k-th file operation fails (sampled k over the whole run, plus pairs); kinds: open, fstat, read, create_dir_all, set_len, seek, write; result/counters/per-piece outcomes/tree checked and the faulty run replayed against the model",
                           "fault_closed / lock_ok / good for every answer proved on the piece programs; tied to the code by trace validation of faulty runs")
-    res["distinct_nontrivial"] = len(set((r["sc"].index, tuple(r["sc"].variant["fail"])) for r in runs if any("fault" in v for v in r["ce"]["outcomes"].values())))
+    res["distinct_nontrivial"] = len(set((r["sc"].tag, r["sc"].index, tuple(r["sc"].variant["fail"])) for r in runs if any("fault" in v for v in r["ce"]["outcomes"].values())))
     return res
 
 
@@ -127,9 +136,13 @@ def replay(ctx, payload):
     vlib.build_harness()
     ctx["driver"] = vlib.build_driver()
     sc = payload["scenario"]
-    w = runprops.world_for("fault", sc["world_seed"], sc["index"])
+    if sc["tag"] == "faultempty":
+        w = runprops.world_for("faultempty", sc["world_seed"], sc["index"], empties=True)
+        w.remove_files(lambda rel, data: len(data) == 0)
+    else:
+        w = runprops.world_for("fault", sc["world_seed"], sc["index"])
     w.threads = sc["variant"].get("threads", 1)
-    runs = runprops.run_scenarios(ctx, [(runprops.Scenario("fault", sc["world_seed"], sc["index"], sc["variant"]), w)],
+    runs = runprops.run_scenarios(ctx, [(runprops.Scenario(sc["tag"], sc["world_seed"], sc["index"], sc["variant"]), w)],
                                   kwargs_of=lambda s, ww: {"plan": {"fail": s.variant["fail"]}})
     bad = oracle(runs[0], sc["variant"]["fail"])
     print("result:", runs[0]["rr"].result, "model verdict:", runs[0]["verdict"][:300])
